@@ -95,6 +95,18 @@ func genTotal(tier string, rng *RNG, emit func(Case)) {
 		emit(Case{Op: "x", Args: []string{"1", hx(append([]byte("# a "), b...))}})
 		emit(Case{Op: "x", Args: []string{"2", hx(append(append([]byte("a "), b...), "\n===\n"...))}})
 	})
+	// every BMP scalar value (stride above) directly before and after a delimiter run, a bracket and a backslash:
+	// per-rune table lookups in the flanking / punctuation / width classifiers
+	for r := 0x80; r < 0x110000; r++ {
+		if r >= 0xD800 && r <= 0xDFFF || (r >= 0x10000 && r%257 != 0) {
+			continue
+		}
+		if tier != "thorough" && r >= 0x3400 && r < 0xF900 && r%5 != 0 {
+			continue
+		}
+		x := string(rune(r))
+		emit(Case{Op: "x", Args: []string{fmt.Sprint(1 + r%2), hx([]byte(x + "*a*" + x + " _" + x + "_ [" + x + "](" + x + ") \\" + x + "\n" + x + "\n# " + x + "\n"))}})
+	}
 	lattice := FullLattice()
 	DocStream(rng, ndocs, func(kind string, d []byte) {
 		c := lattice[rng.Intn(len(lattice))]
